@@ -184,6 +184,7 @@ type State struct {
 	nilChecked map[string]bool
 	ranged  map[string]bool
 	cellOrigin map[string]string
+	ownedBy map[string]string // sub-object reference -> lock key of its owner
 	fin     map[string]string // float term -> real term, for terms known finite on this path
 	nonzero map[string]bool   // real terms known to be non-zero
 	finCount *int
@@ -243,6 +244,12 @@ func (s *State) clone() *State {
 	}
 	n.finCount = s.finCount
 	n.declare = s.declare
+	if s.ownedBy != nil {
+		n.ownedBy = make(map[string]string, len(s.ownedBy))
+		for k, v := range s.ownedBy {
+			n.ownedBy[k] = v
+		}
+	}
 	if s.cellOrigin != nil {
 		n.cellOrigin = make(map[string]string, len(s.cellOrigin))
 		for k, v := range s.cellOrigin {
